@@ -112,9 +112,11 @@ struct VSpanExporter final : public sdktrace::SpanExporter
       items += (items.empty() ? "" : ",") + std::to_string(id);
     }
     export_body(items);
-    bool fail = g_expfail && vs::choose(2) == 1;
-    emitf("{\"e\":\"ExpEnd\",\"ok\":%s}", fail ? "false" : "true");
-    return fail ? sdkcommon::ExportResult::kFailure : sdkcommon::ExportResult::kSuccess;
+    // exporter result: success (default), kFailure, or kFailureFull ("could not take the batch")
+    int res = g_expfail ? vs::choose(3) : 0;
+    emitf("{\"e\":\"ExpEnd\",\"ok\":%s}", res ? "false" : "true");
+    return res == 0 ? sdkcommon::ExportResult::kSuccess
+                    : (res == 1 ? sdkcommon::ExportResult::kFailure : sdkcommon::ExportResult::kFailureFull);
   }
   bool ForceFlush(std::chrono::microseconds) noexcept override
   {
@@ -191,9 +193,11 @@ struct VLogExporter final : public sdklogs::LogRecordExporter
       items += (items.empty() ? "" : ",") + std::to_string(id);
     }
     export_body(items);
-    bool fail = g_expfail && vs::choose(2) == 1;
-    emitf("{\"e\":\"ExpEnd\",\"ok\":%s}", fail ? "false" : "true");
-    return fail ? sdkcommon::ExportResult::kFailure : sdkcommon::ExportResult::kSuccess;
+    // exporter result: success (default), kFailure, or kFailureFull ("could not take the batch")
+    int res = g_expfail ? vs::choose(3) : 0;
+    emitf("{\"e\":\"ExpEnd\",\"ok\":%s}", res ? "false" : "true");
+    return res == 0 ? sdkcommon::ExportResult::kSuccess
+                    : (res == 1 ? sdkcommon::ExportResult::kFailure : sdkcommon::ExportResult::kFailureFull);
   }
   bool ForceFlush(std::chrono::microseconds) noexcept override
   {
